@@ -128,8 +128,8 @@ func collectFacts(parents map[ast.Node]ast.Node, at ast.Node) []condFact {
 				if s == child || s.Pos() >= child.Pos() {
 					break
 				}
-				if ifs, ok := s.(*ast.IfStmt); ok && ifs.Else == nil && endsInJump(ifs.Body.List) {
-					add(ifs.Cond, true)
+				if c := guardCond(s, 0); c != nil {
+					add(c, true)
 				}
 				// switch { case c1: ...jump; case c2: ...jump; ... }: behind it, every leading clause that ends in a jump is excluded
 				if sw, ok := s.(*ast.SwitchStmt); ok && sw.Tag == nil && sw.Init == nil {
@@ -155,6 +155,25 @@ func collectFacts(parents map[ast.Node]ast.Node, at ast.Node) []condFact {
 		}
 	}
 	return out
+}
+
+// guardCond: the condition under which the statement leaves (return / continue / break / goto / panic) instead of
+// falling through: `if C { ...jump }`, and the nested spelling `if A { if B { ...jump } }` (= A && B) whose bodies
+// hold nothing else.
+func guardCond(s ast.Stmt, depth int) ast.Expr {
+	ifs, ok := s.(*ast.IfStmt)
+	if !ok || ifs.Else != nil || ifs.Init != nil && depth > 0 {
+		return nil
+	}
+	if endsInJump(ifs.Body.List) {
+		return ifs.Cond
+	}
+	if depth < 3 && len(ifs.Body.List) == 1 {
+		if inner := guardCond(ifs.Body.List[0], depth+1); inner != nil {
+			return &ast.BinaryExpr{X: ifs.Cond, OpPos: ifs.Cond.End(), Op: token.LAND, Y: inner}
+		}
+	}
+	return nil
 }
 
 // boolLocalExpander returns an expander for the single-assignment boolean locals of body.
@@ -2152,7 +2171,14 @@ func ruleG7(r *Run) {
 						return true
 					}
 					for ai, a := range call.Args {
-						if identObj(info2, a) != o {
+						isID := identObj(info2, a) == o && o != nil
+						if depth == 0 {
+							// response.Index handed over directly, without a local
+							if fv := fieldOf(info2, a); fv != nil && fv.Name() == "Index" {
+								isID = true
+							}
+						}
+						if !isID {
 							continue
 						}
 						if refName(f.Name()) == "makeHeader" {
@@ -2170,7 +2196,7 @@ func ruleG7(r *Run) {
 				})
 				return found
 			}
-			ok := idx != nil && reaches(info, fd.Body, idx, 0)
+			ok := reaches(info, fd.Body, idx, 0)
 			r.Check(ok, "response header carries the response's id in "+tr+".Handler.send", fd.Pos(), "index := response.Index ... makeHeader(.., index)", "Handler.send does not write response.Index into the frame header")
 		}
 		// (4) client: the index parsed from the response frame is the one looked up
@@ -2194,6 +2220,10 @@ func ruleG7(r *Run) {
 			ast.Inspect(fd.Body, func(m ast.Node) bool {
 				if call, isC := m.(*ast.CallExpr); isC && methodName(call) == "loadAndDelete" && len(call.Args) == 1 {
 					if identObj(info, call.Args[0]) == parsed && parsed != nil {
+						ok = true
+					}
+					// result.Index with `result := data{Index: index, ...}` (a delivery helper takes the whole result)
+					if v := fieldOfLiteral(info, fd.Body, call.Args[0]); v != nil && identObj(info, v) == parsed && parsed != nil {
 						ok = true
 					}
 				}
@@ -2337,4 +2367,56 @@ func soleBreakCond(fs *ast.ForStmt) ast.Expr {
 		return nil
 	}
 	return cond
+}
+
+// fieldOfLiteral: for `x.F` where x is a local defined once by a composite literal with a keyed element F: that element's value
+func fieldOfLiteral(info *types.Info, body ast.Node, e ast.Expr) ast.Expr {
+	sel, ok := ast.Unparen(e).(*ast.SelectorExpr)
+	if !ok {
+		return nil
+	}
+	var lit *ast.CompositeLit
+	switch x := ast.Unparen(sel.X).(type) {
+	case *ast.CompositeLit:
+		lit = x
+	case *ast.Ident:
+		o := info.Uses[x]
+		if o == nil {
+			return nil
+		}
+		n := 0
+		ast.Inspect(body, func(m ast.Node) bool {
+			switch d := m.(type) {
+			case *ast.AssignStmt:
+				for i, l := range d.Lhs {
+					if identObj(info, l) == o && i < len(d.Rhs) {
+						n++
+						lit, _ = ast.Unparen(d.Rhs[i]).(*ast.CompositeLit)
+					}
+				}
+			case *ast.ValueSpec:
+				for i, nm := range d.Names {
+					if info.Defs[nm] == o && i < len(d.Values) {
+						n++
+						lit, _ = ast.Unparen(d.Values[i]).(*ast.CompositeLit)
+					}
+				}
+			}
+			return true
+		})
+		if n != 1 {
+			return nil
+		}
+	}
+	if lit == nil {
+		return nil
+	}
+	for _, el := range lit.Elts {
+		if kv, ok := el.(*ast.KeyValueExpr); ok {
+			if id, ok := kv.Key.(*ast.Ident); ok && id.Name == sel.Sel.Name {
+				return kv.Value
+			}
+		}
+	}
+	return nil
 }
